@@ -58,24 +58,29 @@ def _rounds(rng, size, n=5):
 
 
 def generate(tier, rng):
-  reps = {'quick': 2, 'thorough': 5, 'search': 8}[tier]
+  reps = {'quick': 2, 'thorough': 6, 'search': 8}[tier]
   # agnostic: windows x domain learning rates; histories that starve a domain for a whole window
   for W in ([1, 2, 3] if tier == 'quick' else [1, 2, 3, 4]):
     for dlr in ([0.0625, 1.0] if tier == 'quick' else [0.0625, 0.25, 1.0, 2.0]):
-      for nd in [2, 3]:
+      for nd in ([2, 3] if tier == 'quick' or W > 1 else [1, 2, 3, 4]):
         for rep in range(reps):
           pop = _pop(rng, nd, 5)
           rounds = _rounds(rng, 5)
           if rep == 0:      # domain 1 (and 2) see no example for W+1 rounds, then come back
-            rounds = [[0]] * (W + 1) + [[0, 1], [1, 2] if nd == 3 else [1, 3], [0, 2]]
-          yield {'kind': 'agnostic', 'hp': {'W': W, 'dlr': dlr, 'nd': nd, 'bs': BS, 'pbs': 4, 'sopt': 'sgd',
-                                            'epochs': 1 + rep % 2}, 'pop': pop, 'rounds': rounds, 'seed': rng.randrange(1000)}
+            rounds = [[0]] * (W + 1) + [[0, 1], [1, 2] if nd >= 3 else [1, 3], [0, 2]]
+          hp = {'W': W, 'dlr': dlr, 'nd': nd, 'bs': BS, 'pbs': 4, 'sopt': 'sgd', 'epochs': 1 + rep % 2}
+          if rep >= 1 and nd == 2:    # non-uniform / boundary initial weights, an initial window that starves a domain
+            hp['iw'] = [[0.75, 0.25], [1.0, 0.0], [0.5, 0.5]][rep % 3]
+            hp['iwin'] = [[3.0, 0.0], [1.0, 1.0]][rep % 2]
+          if rep >= 3 and rep % 4 == 3:
+            hp['dalg'] = 'none'
+          yield {'kind': 'agnostic', 'hp': hp, 'pop': pop, 'rounds': rounds, 'seed': rng.randrange(1000)}
   for coef in [0.0, 0.5, 1.0]:
     for clr in ([0.125, 2.0] if tier == 'quick' else [0.0625, 0.125, 0.5, 2.0]):
       for rep in range(reps):
         yield {'kind': 'apfl', 'hp': {'coef': coef, 'clr': clr, 'bs': BS, 'epochs': 1 + (rep + int(clr * 16)) % 2, 'sopt': 'sgd'},
                'pop': _pop(rng, 2, 5), 'rounds': _rounds(rng, 5), 'seed': rng.randrange(1000)}
-  for K in [2, 3]:
+  for K in ([2, 3] if tier == 'quick' else [1, 2, 3, 4]):
     for clr in ([0.125] if tier == 'quick' else [0.0625, 0.125, 0.25]):
       for rep in range(3 * reps):
         pop = _pop(rng, 2, 5)
@@ -84,7 +89,7 @@ def generate(tier, rng):
           pop[4] = {'s': 9, 'cnt': [0, 0], 'g': 0}
           rounds[1] = [4]           # only an empty client: every cluster is without examples
         yield {'kind': 'hyp_cluster', 'hp': {'K': K, 'clr': clr, 'slr': 0.5, 'bs': BS, 'pbs': 4, 'epochs': 1 + rep % 2,
-                                             'p0': rep % 2, 'same': rep % 3 == 2},
+                                             'p0': rep % 2, 'same': rep % 3 == 2 and K >= 2},
                'pop': pop, 'rounds': rounds, 'seed': rng.randrange(1000)}
   for clip in ([0.0, 0.0625, 1.0, 8.0] if tier == 'quick' else [0.0, 0.03125, 0.0625, 0.25, 1.0, 8.0]):
     for rep in range(reps):
@@ -184,7 +189,7 @@ def _run_agnostic(case):
       out['rounds'].append({
           'w_prev': w_prev, 'w_new': _f(st2.domain_weights), 'win_prev': win_prev,
           'win_new': [_f(a) for a in st2.domain_window], 'cnt': cnt,
-          'e': [math.exp(hp['dlr'] * m) for m in mean],
+          'e': [math.exp(hp['dlr'] * m) if hp.get('dalg', 'eg') == 'eg' else 1.0 for m in mean],
           'params_finite': _finite(st2.params) and _finite(diag), 'win_len': len(st2.domain_window),
           'starved': [d for d in range(nd) if all(wv[d] == 0 for wv in win_prev)],
       })
